@@ -3,7 +3,6 @@
  * LAST-CALL ghost log as the contract of nonce_function_rfc6979_impl (assumed_C01.h, LOG_NONCE_FN). */
 #ifndef VERIF_NONCE_STUB_H
 #define VERIF_NONCE_STUB_H
-unsigned int g_st_n; int g_st_ret;
 #ifndef VERIF_NATIVE
 struct stub_nonce_bytes { unsigned char a[32]; };
 struct stub_nonce_bytes nondet_stub_nonce(void);
